@@ -34,13 +34,17 @@ func (self *Interpreter) importItem(node ast.AnalyzedImport) *value.Interrupt {
 
 	if moduleFound {
 		// visit the module so that the root scope is populated
-		if i := self.execModule(node.FromModule.Ident(), true); i != nil {
-			return i
+		// (only once: every module has a single instance and its globals are initialized exactly once)
+		if _, alreadyExecuted := self.modules[node.FromModule.Ident()]; !alreadyExecuted {
+			if i := self.execModule(node.FromModule.Ident(), true); i != nil {
+				return i
+			}
 		}
 
 		for _, importItem := range node.ToImport {
+			// share the variable with the module which defines it, do not copy its current value
 			val := self.modules[node.FromModule.Ident()].scopes[0][importItem.Ident.Ident()]
-			self.addVar(importItem.Ident.Ident(), *val)
+			self.currentModule.scopes[len(self.currentModule.scopes)-1][importItem.Ident.Ident()] = val
 		}
 
 		return nil
